@@ -24,7 +24,7 @@ ASSUMPTIONS = ['scope names from a fixed menu', 'scheduling points = line events
                'threads are real threading.Thread objects run one at a time under a baton scheduler']
 WITNESSES = ['nested_append', 'list_replaces', 'none_clears', 'exception_exit_restores', 'invalid_restores',
              'scoped_selector_scope', 'scoped_ref_scope', 'outer_scope_object_reentered', 'thread_private',
-             'baseexception_exit_restores']
+             'baseexception_exit_restores', 'scope_objects_created_before_entry']
 
 
 class Boom(Exception):
@@ -67,6 +67,11 @@ def setup():
   @gin.configurable(module='c09')
   def consumer2(v=None):
     return v
+  @gin.config_scope('dz')            # a scope used as a decorator, created once, here, at root scope
+  def decorated():
+    OBS.append(('decorated', gin.current_scope()))
+  global DECORATED
+  DECORATED = decorated
   global PROBE, BOOM, CONSUMER, CONSUMER2
   PROBE, BOOM, CONSUMER, CONSUMER2 = probe, boom, consumer, consumer2
   from vf import sched
@@ -82,7 +87,8 @@ ENTRY = {
 }
 VALID = [k for k in ENTRY if not k.startswith('!')]
 INVALID = [k for k in ENTRY if k.startswith('!')]
-LEAVES = ['none', 'probe', 'getconf_scoped', 'ref_scoped', 'boom_scoped', 'getconf_unscoped', 'kbd_scoped', 'kbd_ref_scoped']
+LEAVES = ['none', 'probe', 'getconf_scoped', 'ref_scoped', 'boom_scoped', 'getconf_unscoped', 'kbd_scoped', 'kbd_ref_scoped',
+          'decorated_fn']
 
 
 def bound(tier):
@@ -133,6 +139,9 @@ def do_leaf(leaf, stack, res, prog):
       CONSUMER()
     exp = [('probe', ['p'], None)]
     res.w('scoped_ref_scope')
+  elif leaf == 'decorated_fn':
+    DECORATED()
+    exp = [('decorated', top + ['dz'])]
   elif leaf == 'kbd_scoped':
     try:
       gin.get_configurable('p/q/c09.kbd')()
@@ -160,7 +169,7 @@ def do_leaf(leaf, stack, res, prog):
                   (leaf, gin.current_scope(), top, prog), prog)
 
 
-def run_level(prog, i, stack, outer_objs, res):
+def run_level(prog, i, stack, outer_objs, res, cms=None):
   """Executes levels i.. of prog nested inside the current scope; compares with the model at every step."""
   if i == len(prog):
     return
@@ -171,7 +180,9 @@ def run_level(prog, i, stack, outer_objs, res):
   before = list(stack[-1])
   entered = False
   try:
-    with gin.config_scope(arg) as sc:
+    # `cms` = context managers created up front, before any level was entered (the scope a name is appended to is
+    # the one active at ENTRY, not the one active when the context-manager object was created)
+    with (cms[i] if cms is not None else gin.config_scope(arg)) as sc:
       entered = True
       res.transitions += 1
       if invalid:
@@ -193,7 +204,7 @@ def run_level(prog, i, stack, outer_objs, res):
       if entry == 'OUTER' and outer_objs:
         res.w('outer_scope_object_reentered')
       do_leaf(leaf, stack, res, prog)
-      run_level(prog, i + 1, stack, outer_objs + [sc], res)
+      run_level(prog, i + 1, stack, outer_objs + [sc], res, cms)
       if gin.current_scope() != new_top:
         res.violation('scope_after_inner', 'after inner block current_scope()=%r, model %r (program %r)' %
                       (gin.current_scope(), new_top, prog), prog)
@@ -232,12 +243,17 @@ def run_level(prog, i, stack, outer_objs, res):
       cfg._SCOPE_MANAGER.enter_scope(list(s_))
 
 
-def run_program(prog, res):
+def run_program(prog, res, precreate=False):
   harness.hard_reset()
   gin.bind_parameter(('refs', 'c09.consumer', 'v'), cfg.ConfigurableReference('p/c09.probe', True))
   gin.bind_parameter(('refs2', 'c09.consumer2', 'v'), cfg.ConfigurableReference('p/c09.kbd', True))
   stack = [[]]
-  run_level(prog, 0, stack, [], res)
+  cms = None
+  if precreate:
+    with gin.config_scope('elsewhere/created'):
+      cms = [gin.config_scope(arg_for(ENTRY[l[0]], [], stack)) for l in prog]
+    res.w('scope_objects_created_before_entry')
+  run_level(prog, 0, stack, [], res, cms)
   try:
     end = (gin.current_scope(), cfg._SCOPE_MANAGER.active_scopes)
   except Exception as e:  # pylint: disable=broad-except
@@ -260,7 +276,9 @@ def programs(depth):
       return
     if prefix and prefix[-1][0].startswith('!'):
       return
-    for entry in VALID:
+    # programs of maximal depth vary the outermost level over a reduced menu (all forms still occur at depth < max)
+    entries = VALID if (prefix or d < depth or depth < 3) else ["'a'", "['x','y']", 'None', "'a/b'", "''"]
+    for entry in entries:
       for exit_kind in (('normal', 'raise', 'raise_base') if d == 1 else ('normal', 'raise')):
         leaves = LEAVES if d == 1 or not prefix else ['none', 'probe']
         for leaf in leaves:
@@ -283,6 +301,8 @@ def _seq_shard(args):
     res.case(('seq', repr(prog)), len(prog) >= 2 or prog[-1][1] == 'raise' or prog[-1][0].startswith('!'))
     try:
       run_program(prog, res)
+      if len(prog) >= 2 and idx % 3 == 0 and not any(l[0] == 'OUTER' for l in prog):
+        run_program(prog, res, precreate=True)
     except Exception:  # pylint: disable=broad-except
       import traceback
       res.extra['harness_error'] = traceback.format_exc() + '\nprogram=%r' % (prog,)
@@ -311,5 +331,7 @@ def replay(obj):
     return c09_threads.replay(obj)
   prog = [tuple(l) for l in obj]
   run_program(prog, res)
+  if not any(l[0] == 'OUTER' for l in prog):
+    run_program(prog, res, precreate=True)
   harness.hard_reset()
   return res
